@@ -33,6 +33,7 @@ PROFILES = {
         window_kinds=WIN,
         mutate_names=[4, 5, 2, 1],
         rename_modes=[3, 3, 2, 1, 2],
+        p_odd_names=0.2,
         p_summarize_overwrite_group=0.3,
         crash_subjects={},
         core_ops=("src", "select", "mutate", "rename"),
